@@ -19,8 +19,9 @@ LEVEL_TEXT = ("Lean theorems: parse(write a) = a (names, order, residues, length
               "formats (Phylip with its 8 option combinations, multi-alignment streams and auto-detection as folds over them) "
               "tied to /repo by constant regeneration (line / block widths) and differential correspondence of writer bytes "
               "and parser results; the round-trip predicate is evaluated on the implementation for every format x option, "
-              "multi-Phylip streams, auto-detection, chains of formats and plain/.gz/.xz files. The Nexus round trip is "
-              "refuted for the code as it is (roundtrip_nexus_counterexample).")
+              "multi-Phylip streams, auto-detection, chains of formats and plain/.gz/.xz files. The Nexus round trip was "
+              "false for the unrepaired parser (roundtrip_nexus_counterexample: rows spelling a reserved word) and holds on "
+              "that witness for the repaired one (roundtrip_nexus_patched_witness).")
 LEVEL_NOTE = ("Trusted: Lean kernel; harness; compress/gzip, xz, bufio, the file system (file round trips are observed on "
               "the implementation and compared with the in-memory model). Round-trip theorems for Phylip, Nexus, Clustal, "
               "the multi-Phylip stream and auto-detection are open (models + correspondence only): see evidence 'partial'.")
@@ -45,8 +46,9 @@ PARTIAL = [
     "Stockholm: complete (roundtrip_stockholm: every alignment, every duplicate policy, with and without the proposed guards)",
     "Phylip (strict / one-line / no-block), Clustal: writer + parser models with byte-exact correspondence; "
     "round-trip theorems stated in Props/C02.lean and OPEN",
-    "Nexus: model + correspondence; the round trip is FALSE for the code as it is (rows spelling a reserved word, "
-    "roundtrip_nexus_counterexample); the theorem under the extra hypothesis 'no row spells a reserved word' is open",
+    "Nexus: model + correspondence; the round trip was FALSE for the unrepaired parser (rows spelling a reserved word, "
+    "roundtrip_nexus_counterexample; repaired in /repo 2d2dfb5, the model follows through the regenerated fact); the "
+    "universal round-trip theorem for the repaired parser is open",
     "multi-Phylip stream, auto-detection and chain-of-formats: modelled in the oracle (folds over the models), theorems open",
     ".gz/.xz files: observed on the implementation only (compression is a trusted external)",
 ]
